@@ -72,6 +72,72 @@ func init() {
 		}
 		c.Fact("paginate.featureset_writes", writes)
 
+		// (2b) every use of the sorted index, in EVERY function of the package: the index may be rebuilt
+		// (assigned), nil-tested, measured, indexed, ranged over or searched — nothing else. In particular it
+		// must not escape (be returned, stored, passed to anything but the read-only slices.BinarySearch):
+		// an alias could be re-sorted in place behind the back of all()/above().
+		uses := map[string][]string{}
+		for _, f := range c.load("mcp") {
+			for _, d := range f.Decls {
+				fd, ok := d.(*ast.FuncDecl)
+				if !ok || fd.Body == nil {
+					continue
+				}
+				name := fd.Name.Name
+				if r := recvName(fd); r != "" {
+					name = r + "." + name
+				}
+				var u []string
+				var stack []ast.Node
+				ast.Inspect(fd.Body, func(x ast.Node) bool {
+					if x == nil {
+						stack = stack[:len(stack)-1]
+						return true
+					}
+					if se, ok := x.(*ast.SelectorExpr); ok && se.Sel.Name == "sortedKeys" {
+						kind := "escapes:" + c.Src(stack[len(stack)-1])
+						switch p := stack[len(stack)-1].(type) {
+						case *ast.AssignStmt:
+							kind = "escapes:" + c.Src(p)
+							for _, l := range p.Lhs {
+								if l == ast.Expr(se) {
+									kind = "assign:" + c.Src(p.Rhs[0])
+								}
+							}
+						case *ast.BinaryExpr:
+							if c.Src(p.Y) == "nil" || c.Src(p.X) == "nil" {
+								kind = "niltest"
+							}
+						case *ast.IndexExpr:
+							if p.X == ast.Expr(se) {
+								kind = "index"
+							}
+						case *ast.RangeStmt:
+							if p.X == ast.Expr(se) {
+								kind = "range"
+							}
+						case *ast.CallExpr:
+							switch fn := c.Src(p.Fun); fn {
+							case "len":
+								kind = "len"
+							case "slices.BinarySearch":
+								kind = "search"
+							default:
+								kind = "passed-to:" + fn
+							}
+						}
+						u = append(u, kind)
+					}
+					stack = append(stack, x)
+					return true
+				})
+				if len(u) > 0 {
+					uses[name] = u
+				}
+			}
+		}
+		c.Fact("paginate.sortedKeys_uses", uses)
+
 		// (3) list handlers: whole body under s.mu, paginateList on the right set with the configured page size
 		lh := map[string]string{}
 		for _, h := range []string{"listPrompts", "listTools", "listResources", "listResourceTemplates"} {
